@@ -363,7 +363,15 @@ func c01Writer(c *Ctx, p *Prog) {
 
 	// R2: callers of the diff functions.
 	nTrig := 0
+	isDiff := map[*ssa.Function]bool{}
+	for _, d := range diffFns {
+		isDiff[d] = true
+	}
 	for _, fn := range p.Funcs("benchfmt") {
+		// (a part of the diff that calls another part of it is not a trigger)
+		if isDiff[fn] {
+			continue
+		}
 		for _, d := range diffFns {
 			if fn == d {
 				continue
